@@ -12,6 +12,8 @@ use std::hash::{Hash, Hasher};
 use std::marker::PhantomData;
 use std::str::FromStr;
 
+pub mod constrt;
+
 pub type L = Vec<u64>;
 
 pub trait PF: Send + Sync {
